@@ -38,14 +38,14 @@ func Specs() map[string]*PropSpec {
 		Stubs:       []string{"c09AK", "c09Bank", "SDK staking getters (GetDelegatorBonded, GetDelegatorUnbonding, BondDenom)"},
 	}
 	fk := func(fn string, kv ...string) Inst { return Inst{Pkg: "x/feemarket/keeper", Fn: fn, Params: pm(kv...)} }
-	c17 := []Inst{fk("VerifC17_Formula"), fk("VerifC17_Bounds"), fk("VerifC17_Monotone"), fk("VerifC17_BeginBlock"), fk("VerifC17_EndBlock"), {Pkg: "app/ante/evm", Fn: "VerifC17_GasWantedRecorded", Params: pm(), EngineReplay: true}}
+	c17 := []Inst{fk("VerifC17_Formula"), fk("VerifC17_Bounds"), fk("VerifC17_Monotone"), fk("VerifC17_BeginBlock"), fk("VerifC17_EndBlock"), fk("VerifC17_ParamsAdmitFormula"), {Pkg: "app/ante/evm", Fn: "VerifC17_GasWantedRecorded", Params: pm(), EngineReplay: true}}
 	m["C17"] = &PropSpec{
 		ID: "C17", Pkgs: []string{"./x/feemarket/keeper", "./app/ante/evm"}, Quick: c17, Thorough: c17,
 		Bounds: map[string]string{
-			"quick":    "one block, fully symbolic: parent base fee in [0,2^128), gas figure any uint64, MaxGas nil / -1 / [0,2^62], elasticity and denominator any uint32 >= 1, min gas price any Dec in [0,10^42], height and enable height in [0,2^40]; monotonicity over two gas figures; EndBlock: gasWanted < 2^63, gasUsed <= limit <= 2^62, multiplier in [0,1]; the recording side: the ante GasWantedDecorator with the real fee-market keeper (any height, enable height, NoBaseFee, block gas limit, previous counter, tx gas) adds the declared gas exactly in the blocks CalculateBaseFee treats as EIP-1559 blocks",
+			"quick":    "one block, fully symbolic: parent base fee in [0,2^128), gas figure any uint64, MaxGas nil / -1 / [0,2^62], elasticity and denominator any uint32 >= 1, min gas price any Dec in [0,10^42], height and enable height in [0,2^40]; every parameter set accepted by the real Params.Validate (elasticity any uint32) computes a base fee without panicking; monotonicity over two gas figures; EndBlock: gasWanted < 2^63, gasUsed <= limit <= 2^62, multiplier in [0,1]; the recording side: the ante GasWantedDecorator with the real fee-market keeper (any height, enable height, NoBaseFee, block gas limit, previous counter, tx gas) adds the declared gas exactly in the blocks CalculateBaseFee treats as EIP-1559 blocks",
 			"thorough": "same (the single-step query is already unbounded in the value dimension)",
 		},
-		Outside: []string{"block gas limit below the elasticity multiplier (target 0: the real code divides by zero once any gas is wanted)", "elasticity multiplier 0 (not rejected by Params.Validate; observation in DESIGN.md)", "base fee >= 2^128", "block sequences longer than one step (monotone/bounds are single-step facts; base>=min is re-established by every step, checked in Bounds)", "gasWanted >= 2^63 (EndBlock returns early)"},
+		Outside: []string{"block gas limit below the elasticity multiplier (target 0: the real code divides by zero once any gas is wanted)", "base fee >= 2^128", "block sequences longer than one step (monotone/bounds are single-step facts; base>=min is re-established by every step, checked in Bounds)", "gasWanted >= 2^63 (EndBlock returns early)"},
 		Assumptions: []string{"Context.KVStore replaced by the harness multistore (gas metering wrapper skipped)", "codec modelled as typed blobs (Marshal/Unmarshal inverse pair)", "big.Int / math.Int / LegacyDec theory summaries"},
 		Stubs:       []string{"zzverif.MemStore (in-memory KVStore)", "zzverif blob codec"},
 	}
